@@ -168,6 +168,8 @@ COMBINATORS = {
     "std::result::Result::and_then": (_R, "Ok", "Err", "and_then"),
     "std::result::Result::ok": (_R, "Ok", "Err", "ok"),
     "std::result::Result::unwrap_or_else": (_R, "Ok", "Err", "unwrap_or_else"),
+    "std::result::Result::or_else": (_R, "Ok", "Err", "or_else"),
+    "std::option::Option::or_else": (_O, "Some", "None", "or_else"),
 }
 
 
@@ -281,10 +283,16 @@ class Walker:
                 del st.frames[fr.fid]
                 st.top = caller.fid
                 if fr.post is not None:
-                    val = fr.post(val)
+                    val = fr.post(val, st) if getattr(fr.post, "wants_state", False) else fr.post(val)
                     if isinstance(val, tuple) and val and val[0] == "__backedge__":
-                        # synthetic loop body (closure applied by for_each / try_for_each): one iteration ends here
+                        # synthetic loop body (closure applied by for_each / try_for_each / find_map): one iteration ends here
                         self._finish("backedge", None, st, detail=val[1])
+                    if isinstance(val, tuple) and val and val[0] == "__prune__":
+                        self._finish("unreachable", None, st, detail="synthetic alternative contradicts the closure's result")
+                    if isinstance(val, tuple) and val and val[0] == "__then__":
+                        # continuation: the model schedules the next closure application into the same destination
+                        val[1](st, caller, fr.ret_place, fr.ret_block, fr.site)
+                        continue
                 self._write(st, fr.ret_place, val)
                 if fr.ret_block is None:
                     self._finish("diverge", None, st)
@@ -980,6 +988,20 @@ class Walker:
             a = self._deref_val(st, args[0])
             b = self._deref_val(st, args[1])
             return ("val", self.binop("Eq" if name == "eq" else "Ne", a, b))
+        if name in ("cmp", "partial_cmp") and len(args) == 2 and tr in ("std::cmp::Ord", "std::cmp::PartialOrd") and \
+                (impl_self in ("u8", "u16", "u32", "u64", "u128", "usize", "i8", "i16", "i32", "i64", "i128", "isize") or "impls" in callee["path"]):
+            a = self._deref_val(st, args[0])
+            b = self._deref_val(st, args[1])
+            ORD = "std::cmp::Ordering"
+
+            def mk(v):
+                o = agg(ORD, v, [])
+                return o if name == "cmp" else agg("std::option::Option", "Some", [("0", o)])
+            return ("fork", [
+                (lambda s, a=a, b=b: s.facts.assume(("bin", "Lt", a, b), True), mk("Less")),
+                (lambda s, a=a, b=b: s.facts.assume(("bin", "Eq", a, b), True), mk("Equal")),
+                (lambda s, a=a, b=b: s.facts.assume(("bin", "Gt", a, b), True), mk("Greater")),
+            ])
         if name == "unwrap_or" and cn == "std::option::Option::unwrap_or":
             v = self._known_variant(st, args[0])
             if v == "Some":
@@ -1005,7 +1027,11 @@ class Walker:
             nxt_some = ("call", "<synthetic as std::iter::Iterator>::next", (it,), kstr + "#some")
             nxt_none = ("call", "<synthetic as std::iter::Iterator>::next", (it,), kstr + "#none")
             elem = ("field", nxt_some, "Some", "0")
-            act = self._apply_fn(st, fr, args[1], [elem], (lambda v, key=key: ("__backedge__", key)))
+            def loop_post(v, key=key, name=name):
+                if name == "try_for_each" and isinstance(v, tuple) and v and v[0] == "agg" and v[2] in ("Err", "Break", "None"):
+                    return v        # short-circuit: try_for_each returns the closure's failure
+                return ("__backedge__", key)
+            act = self._apply_fn(st, fr, args[1], [elem], loop_post)
             if act is not None and act[0] == "inline":
                 unit = ("tuple", ())
                 done_val = unit if name == "for_each" else agg("std::result::Result", "Ok", [("0", unit)])
@@ -1029,6 +1055,58 @@ class Walker:
                         return s2.facts.assume_variant(errv, "Err")
                     alts.append((err_alt, errv))
                 return ("fork", alts)
+        # --- `iter::from_fn(g).find_map(f)`: loop { match g() { None => return None, Some(x) => if let Some(y) = f(x) { return Some(y) } } }
+        if name == "find_map" and tr == "std::iter::Iterator" and len(args) == 2:
+            it, f = args
+            src = it[1] if isinstance(it, tuple) and it[0] == "refval" else it
+            if isinstance(src, tuple) and src[0] == "ref":
+                src = self._read(st, src[1])
+            g = src[2][0] if isinstance(src, tuple) and src[0] == "call" and src[1].endswith("from_fn") and src[2] else None
+            if g is not None:
+                key = (site, "<find_map>", 0)
+                kstr = "find_map@" + self._site_str(site)
+                OPT = "std::option::Option"
+
+                def post_f(kind, key=key):
+                    def p(w, st2):
+                        if not st2.facts.assume_variant(w, "Some" if kind == "hit" else "None"):
+                            return ("__prune__",)
+                        return w if kind == "hit" else ("__backedge__", key)
+                    p.wants_state = True
+                    return p
+
+                def post_g(kind):
+                    def p(v, st2):
+                        if not st2.facts.assume_variant(v, "None" if kind == "none" else "Some"):
+                            return ("__prune__",)
+                        if kind == "none":
+                            return agg(OPT, "None", [])
+                        payload = self._proj1(v, ("f", "Some", "0"))
+
+                        def k(st3, fr3, dest3, target3, site3, payload=payload, kind=kind):
+                            act = self._apply_fn(st3, fr3, f, [payload], post_f(kind))
+                            if act is None or act[0] != "inline":
+                                self._write(st3, dest3, ("call", "<find_map closure>", (payload,), self._site_str(site3)))
+                                st3.bb = target3
+                                return
+                            self._inline(st3, fr3, act[1], act[2], dest3, target3, site3, post=act[3])
+                        return ("__then__", k)
+                    p.wants_state = True
+                    return p
+                alts = []
+                okm = True
+                for kind in ("none", "hit", "miss"):
+                    act = self._apply_fn(st, fr, g, [], post_g(kind))
+                    if act is None or act[0] != "inline":
+                        okm = False
+                        break
+
+                    def mark(s2, kstr=kstr):
+                        s2.trace.append(("loop", kstr, {}, fr.body.defp))
+                        return True
+                    alts.append((mark, ("__inline__", act[1], act[2], act[3])))
+                if okm:
+                    return ("fork", alts)
         # --- Option / Result combinators with the closure applied on the matching variant
         comb = COMBINATORS.get(cn)
         if comb is not None and len(args) >= 1:
@@ -1055,12 +1133,37 @@ class Walker:
                 return ("inline", b, [a0] + list(argvals), post)
         if isinstance(fv, tuple) and fv[0] == "fn" and argvals is not None:
             p = cname(fv[1])
+            ctor = self._ctor_of(p)
+            if ctor is not None:
+                adt, variant, names = ctor
+                if len(names) == len(argvals):
+                    v = agg(adt, variant, list(zip(names, argvals)))
+                    return ("val", post(v) if post else v)
             if p in ("std::sync::Arc::new", "std::boxed::Box::new") and len(argvals) == 1:
                 v = argvals[0]
                 return ("val", post(v) if post else v)
             b = self.db.bodies.get(fv[1])
             if b is not None and fr.depth < self.max_depth + 2 and not self.no_inline(fv[1]):
                 return ("inline", b, list(argvals), post)
+        return None
+
+    def _ctor_of(self, path):
+        """(adt, variant, field names) when `path` names a tuple-like enum variant or tuple struct constructor"""
+        std = {"std::option::Option::Some": ("std::option::Option", "Some", ["0"]), "std::result::Result::Ok": ("std::result::Result", "Ok", ["0"]),
+               "std::result::Result::Err": ("std::result::Result", "Err", ["0"])}
+        if path in std:
+            return std[path]
+        if "::" not in path:
+            return None
+        head, last = path.rsplit("::", 1)
+        a = self.db.adts.get(head)
+        if a is not None and a["kind"] == "enum":
+            for v in a["variants"]:
+                if v["name"] == last and v["fields"] and all(f["name"].isdigit() for f in v["fields"]):
+                    return (a["def"], last, [f["name"] for f in v["fields"]])
+        a = self.db.adts.get(path)
+        if a is not None and a["kind"] == "struct" and a["variants"][0]["fields"] and all(f["name"].isdigit() for f in a["variants"][0]["fields"]):
+            return (a["def"], None, [f["name"] for f in a["variants"][0]["fields"]])
         return None
 
     def _combinator(self, st, fr, comb, args):
@@ -1084,6 +1187,9 @@ class Walker:
         elif kind == "and_then":
             alts.append((pos, self._apply_fn(st, fr, f, [payload(pos)], None)))
             alts.append((neg, ("val", agg(adt, neg, [] if adt == OPT else [("0", payload(neg))]))))
+        elif kind == "or_else":      # Err(e) -> f(e) ; None -> f()
+            alts.append((pos, ("val", agg(adt, pos, [("0", payload(pos))]))))
+            alts.append((neg, self._apply_fn(st, fr, f, [payload(neg)] if adt == RES else [], None)))
         elif kind == "ok_or_else":   # Option -> Result
             alts.append((pos, ("val", agg(RES, "Ok", [("0", payload(pos))]))))
             alts.append((neg, self._apply_fn(st, fr, f, [], wrap(RES, "Err"))))
